@@ -635,6 +635,11 @@ func registerMisc(p *Program) {
 	ext["strings.Clone"] = func(fr *frame, a []value) value { return a[0] }
 	ext["internal/stringslite.Clone"] = func(fr *frame, a []value) value { return a[0] }
 
+	ext["maps.clone"] = func(fr *frame, a []value) value {
+		it := a[0].(iface)
+		o, _ := it.v.(*omap)
+		return iface{t: it.t, v: o.clone()}
+	}
 	// runtime / os / debug
 	ext["runtime.Gosched"] = func(fr *frame, a []value) value { fr.m.yield(); return nil }
 	ext["runtime.GC"] = nop
@@ -675,6 +680,19 @@ func registerMisc(p *Program) {
 		return fmt.Sprintf("00000000-0000-4000-8000-%012d", fr.m.uuidSeq)
 	}
 	ext["github.com/google/uuid.NewString"] = uuidStr
+	uuidArr := func(fr *frame, a []value) value {
+		fr.m.uuidSeq++
+		arr := make(array, 16)
+		for i := range arr {
+			arr[i] = uint8(0)
+		}
+		arr[6], arr[8] = uint8(0x40), uint8(0x80)
+		arr[14], arr[15] = uint8(fr.m.uuidSeq>>8), uint8(fr.m.uuidSeq)
+		return arr
+	}
+	ext["github.com/google/uuid.New"] = uuidArr
+	ext["github.com/google/uuid.Must"] = func(fr *frame, a []value) value { return a[0] }
+	ext["github.com/google/uuid.NewRandom"] = func(fr *frame, a []value) value { return tuple{uuidArr(fr, a), iface{}} }
 
 	// regexp: native objects
 	ext["regexp.MustCompile"] = func(fr *frame, a []value) value {
